@@ -310,3 +310,175 @@ def impl_tract_init(t, trs, cfg, pq, kw):
         return render(tract_snap(tr))
     ret = tr.parse(commit=True, **kw)
     return render((tract_snap(tr), ret))
+
+
+# ---- containers / export
+from pytrs import TractList, TRSList
+
+
+def enc_elems(specs):
+    parts = []
+    for sp in specs:
+        if sp[0] == 't':
+            _, uid, trs, desc, pq, cfg = sp
+            parts.append(':'.join(['t', str(uid), enc_text(trs), enc_text(desc), enc_bool(pq), enc_cfg(cfg)]))
+        else:
+            parts.append('r:' + enc_text(sp[1]))
+    return ';'.join(parts)
+
+
+def build_elems(specs):
+    """real objects for the specs; Tract objects are created in uid order so that the creation counter agrees"""
+    order = sorted([i for i, sp in enumerate(specs) if sp[0] == 't'], key=lambda i: specs[i][1])
+    objs = [None] * len(specs)
+    for i in order:
+        _, uid, trs, desc, pq, cfg = specs[i]
+        objs[i] = pytrs.Tract(desc, trs=trs, parse_qq=pq, config=cfg)
+    for i, sp in enumerate(specs):
+        if sp[0] == 'r':
+            objs[i] = pytrs.TRS(sp[1])
+    return objs
+
+
+def tag(o):
+    return o.desc if isinstance(o, pytrs.Tract) else o.trs
+
+
+def mklist(specs):
+    objs = build_elems(specs)
+    if specs and all(sp[0] == 'r' for sp in specs):
+        return TRSList(objs), objs
+    if all(sp[0] == 't' for sp in specs):
+        return TractList(objs), objs
+    l = TRSList()
+    l._elements = list(objs)      # mixed lists only arise for TRSList-of-TRS; kept for completeness
+    return l, objs
+
+
+def line_cont_sort(specs, key, rev):
+    return req('cont.sort', enc_elems(specs), enc_text(key), enc_bool(rev))
+
+
+def impl_cont_sort(specs, key, rev):
+    l, _ = mklist(specs)
+    try:
+        l.custom_sort(key, rev)
+    except Exception as e:  # noqa
+        return render_exc(e) + ' ' + render([tag(o) for o in l])
+    return render([tag(o) for o in l])
+
+
+PREDS = {
+    'sec_odd': lambda e: e.sec_num is not None and e.sec_num % 2 == 1,
+    'has_lots': lambda e: isinstance(e, pytrs.Tract) and len(e.lots) > 0,
+    'true': lambda e: True,
+    'false': lambda e: False,
+}
+
+
+def pred_fn(p):
+    if p.startswith('secnum_lt:'):
+        n = int(p.split(':')[1])
+        return lambda e: e.sec_num is not None and e.sec_num < n
+    if p.startswith('twp_eq:'):
+        t = p.split(':', 1)[1]
+        return lambda e: e.twp == t
+    return PREDS[p]
+
+
+def enc_pred(p):
+    if p.startswith('twp_eq:'):
+        return 'twp_eq:' + enc_text(p.split(':', 1)[1])
+    return p
+
+
+def line_cont_filter(specs, p, drop):
+    return req('cont.filter', enc_elems(specs), enc_pred(p), enc_bool(drop))
+
+
+@guard
+def impl_cont_filter(specs, p, drop):
+    l, _ = mklist(specs)
+    r = l.filter(pred_fn(p), drop)
+    return render(([tag(o) for o in r], [tag(o) for o in l]))
+
+
+def line_cont_filter_errors(specs, twp, rge, sec, undef, drop):
+    return req('cont.filter_errors', enc_elems(specs), enc_bool(twp), enc_bool(rge), enc_bool(sec), enc_bool(undef), enc_bool(drop))
+
+
+@guard
+def impl_cont_filter_errors(specs, twp, rge, sec, undef, drop):
+    l, _ = mklist(specs)
+    r = l.filter_errors(twp, rge, sec, undef, drop)
+    return render(([tag(o) for o in r], [tag(o) for o in l]))
+
+
+def line_cont_filter_dups(specs, method, drop):
+    is_trs = bool(specs) and all(sp[0] == 'r' for sp in specs)
+    return req('cont.filter_dups', enc_elems(specs), method, enc_bool(is_trs), enc_bool(drop))
+
+
+@guard
+def impl_cont_filter_dups(specs, method, drop):
+    l, _ = mklist(specs)
+    r = l.filter_duplicates(method, drop)
+    return render(([tag(o) for o in r], [tag(o) for o in l]))
+
+
+def line_cont_group(specs, attrs):
+    return req('cont.group', enc_elems(specs), ','.join(attrs))
+
+
+@guard
+def impl_cont_group(specs, attrs):
+    l, _ = mklist(specs)
+    g = l.group_by(list(attrs) if len(attrs) > 1 else attrs[0])
+    un = type(l).unpack_group(g)
+    return render(({k: [tag(o) for o in v] for k, v in g.items()}, [tag(o) for o in un]))
+
+
+def line_export_rows(specs, attrs, nice, exists, mode):
+    return req('export.rows', enc_elems(specs), ','.join(attrs), enc_bool(nice), enc_bool(exists), mode)
+
+
+@guard
+def impl_export_rows(specs, attrs, nice, exists, mode):
+    import csv
+    import os
+    import tempfile
+    l, _ = mklist(specs)
+    d = tempfile.mkdtemp(prefix='pytrs_verif_')
+    fp = os.path.join(d, 'out.csv')
+    try:
+        if exists:
+            open(fp, 'w').close()
+        l.tracts_to_csv(list(attrs), fp, mode, nice_headers=nice)
+        with open(fp, newline='') as f:
+            text = f.read()
+        with open(fp, newline='') as f:
+            rows = [list(r) for r in csv.reader(f)]
+    finally:
+        try:
+            os.remove(fp)
+            os.rmdir(d)
+        except OSError:
+            pass
+    return render((rows, text, rows, l.tracts_to_dict(list(attrs))))
+
+
+def line_csv_roundtrip(rows):
+    return req('csv.roundtrip', '|'.join(','.join('f' + enc_text(c) for c in r) for r in rows))
+
+
+@guard
+def impl_csv_roundtrip(rows):
+    import csv
+    import io
+    buf = io.StringIO()
+    w = csv.writer(buf)
+    for r in rows:
+        w.writerow(r)
+    text = buf.getvalue()
+    back = [list(r) for r in csv.reader(io.StringIO(text, newline=''))]
+    return render((text, back))
